@@ -4,7 +4,7 @@ EXTENDS ISMOps, Json, IOUtils
 Trace == ndJsonDeserialize(IOEnv.TRACE_FILE)
 VARIABLES l, bad
 Verdict(e) ==
-    LET ex == Expected(e) IN
+    LET ex == ISMExpected(e) IN
     IF ~e.same THEN "a caller's tensor was modified"
     ELSE IF ex.zone = "either" THEN ""
     ELSE IF e.st # "ok" THEN "raised on a valid window"
